@@ -24,7 +24,7 @@ REG = Registry(
     assumptions=["a UBM is never handed over untrained in this pool (that is the one documented case in which it is modified)"],
 )
 
-OPS = ["kmeans_fit", "kmeans_use", "gmm_ml_fit", "gmm_map_fit", "ubm_stats", "stats_add", "linear_scoring", "fa_fit",
+OPS = ["gmm_ml_fit", "kmeans_fit", "kmeans_use", "gmm_ml_fit", "gmm_map_fit", "ubm_stats", "stats_add", "linear_scoring", "fa_fit",
        "fa_fit_array", "fa_enroll", "fa_score", "isv_transform", "ivector_fit", "ivector_project", "wccn", "whitening",
        "kmeans_fit_zero_iter", "map_prior_alias"]
 
@@ -40,7 +40,7 @@ def g_pool(draw):
     K = 2
     y = np.concatenate([np.arange(K), np.arange(K), r.integers(0, K, n - 2 * K)]).astype(int)
     y = y[np.array(gen.permutation(draw, n))]
-    k = gen.integer(draw, 1, 3)
+    k = gen.choice(draw, [1, 2, 3, 3])
     init = X[r.choice(n, k, replace=False)] + np.sqrt(p["variances"]).mean(axis=0) * r.normal(0, 0.2, (k, F))
     n_st = gen.integer(draw, 3, 6)
     ylab = np.concatenate([np.arange(K), r.integers(0, K, n_st - K)]).astype(int)
@@ -57,12 +57,21 @@ def g_pool(draw):
     # fixed MAP ratios given per component as an array (caller-owned), and optionally a prior component so far from
     # the data that it receives no evidence
     c["alpha"] = r.uniform(0.1, 0.9, C)
+    # initial mixture weights handed to the constructor of an ML machine (caller-owned; their float sum is 1 only up
+    # to rounding)
+    wk = r.uniform(0.2, 1.0, k)
+    wk = wk / wk.sum()
+    if gen.boolean(draw):
+        # weights as a person writes them: two decimals
+        wk = np.round(wk, 2)
+        wk[-1] = round(1.0 - float(wk[:-1].sum()), 2)
+    c["w_k"] = wk
     c["prior_far"] = gen.integer(draw, 0, C - 1) if (C >= 2 and gen.choice(draw, [True, True, True, False])) else None
     fa = sut.fa_ref(c)
     c.update(X=X, y=y, init=init, sessions=sessions, ylab=ylab, z=r.normal(0, 1, fa.CF),
              yy=(r.normal(0, 1, fa.rV) if c["jfa"] else None), offsets=np.sqrt(p["variances"]) * r.normal(0, 0.3, (C, F)),
              chunks=gen.composition(draw, n, max_parts=3), np_seed=gen.integer(draw, 0, 9999),
-             upd=[bool(u) for u in gen.choice(draw, [(1, 1, 1), (1, 0, 0), (0, 1, 1), (1, 0, 1)])])
+             upd=[bool(u) for u in gen.choice(draw, [(1, 1, 1), (1, 0, 0), (0, 1, 1), (1, 0, 1), (1, 0, 0)])])
     ops = [{"op": gen.choice(draw, OPS), "dask": gen.boolean(draw), "flag": gen.boolean(draw)}
            for _ in range(gen.integer(draw, 3, 10))]
     c["ops"] = ops
@@ -94,6 +103,7 @@ class Pool:
         self.prior_params = pp
         self.prior = sut.make_gmm(pp)
         self.alpha = np.array(case.get("alpha", np.full(int(case["ubm"]["C"]), 0.5)), dtype=float)
+        self.w_k = np.array(case.get("w_k", np.full(len(case["init"]), 1.0 / len(case["init"]))), dtype=float)
         self.stats = [sut.make_stats(s) for s in case["sessions"]]
         self.iv_stats = [sut.make_stats(s) for s in case.get("iv_sessions", case["sessions"])]
         self.ylab = np.array(case["ylab"])
@@ -108,7 +118,7 @@ class Pool:
 
     def members(self):
         out = {"X": self.X, "Xbuf": self.Xbuf, "y": self.y, "init": self.init, "ylab": self.ylab, "offsets": self.offsets,
-               "z": self.z, "models": self.models, "ylist": np.array(self.ylist), "alpha": self.alpha, "ycol": self.ycol}
+               "z": self.z, "models": self.models, "ylist": np.array(self.ylist), "alpha": self.alpha, "ycol": self.ycol, "w_k": self.w_k}
         if self.yy is not None:
             out["yy"] = self.yy
         for name, g in (("ubm", self.ubm), ("prior", self.prior), ("fa.ubm", self.fa.ubm)):
@@ -205,9 +215,11 @@ def run_op(pool, op):
         v, w = m.get_variances_and_weights_for_each_cluster(data)
         res = {"transform": m.transform(data), "predict": m.predict(data), "v": v, "w": w}
     elif name == "gmm_ml_fit":
-        def build(init_arr):
+        def build(init_arr, w_arr=None):
+            # the constructor's `weights=` array is an argument of the trainer like any other
             g = GMMMachine(k, max_fitting_steps=2, convergence_threshold=None, update_means=case["upd"][0],
-                           update_variances=case["upd"][1], update_weights=case["upd"][2])
+                           update_variances=case["upd"][1], update_weights=case["upd"][2],
+                           weights=pool.w_k if w_arr is None else w_arr)
             if op["flag"]:
                 g.k_means_trainer = KMeansMachine(k, init_method=init_arr, max_iter=1, convergence_threshold=None)
             else:
@@ -219,9 +231,12 @@ def run_op(pool, op):
         res = {"w": g.weights, "m": g.means, "v": g.variances}
 
         def train():
-            Xc, ic = pool.X.copy(), pool.init.copy()
-            return build(ic).fit(Xc), [Xc, ic]
-        probe = make_probe(train, ["weights", "means", "variances"], None)
+            Xc, ic, wc = pool.X.copy(), pool.init.copy(), pool.w_k.copy()
+            return build(ic, wc).fit(Xc), [Xc, ic, wc]
+        # weights that are neither initialised by k-means nor updated stay the object the constructor was given
+        # (nothing was trained there); that the array keeps its bits is settled by the snapshot of the pool
+        w_trained = bool(op["flag"]) or bool(case["upd"][2])
+        probe = make_probe(train, (["weights"] if w_trained else []) + ["means", "variances"], None)
     elif name in ("gmm_map_fit", "map_prior_alias"):
         steps = 0 if name == "map_prior_alias" else 2
 
